@@ -398,6 +398,13 @@ func runScenario(sc *Scenario) (res *result) {
 			res.endClasses = append(res.endClasses, endViolation{clsConnCredit, fmt.Sprintf(
 				"at quiescence %d bytes of connection credit are outstanding (granted with the preface %d, now %d)", out, o.cConnInit, o.cConnWin), len(res.log)})
 		}
+		if res.qobs != nil && res.idx < 0 && o.cConnWin+res.qobs.InUnsent != o.cConnInit {
+			// exact form at quiescence: what the peer may send plus what the client still
+			// holds back (cc.inflow.unsent, hook snapshot) is what was advertised
+			res.endClasses = append(res.endClasses, endViolation{clsConnCredit, fmt.Sprintf(
+				"at quiescence %d bytes of connection credit are lost: advertised %d, peer's window %d, held back by the client %d",
+				o.cConnInit-o.cConnWin-res.qobs.InUnsent, o.cConnInit, o.cConnWin, res.qobs.InUnsent), len(res.log)})
+		}
 		if len(o.pending) > 0 {
 			res.endClasses = append(res.endClasses, endViolation{clsSettingsNotAcked, fmt.Sprintf(
 				"%d SETTINGS frames unacknowledged after the final PING ack", len(o.pending)), len(res.log)})
